@@ -96,7 +96,9 @@ class Run:
         # in some instance-level runs the last parameter is a constant: the only assignments it accepts are re-assignments
         # of the very object it holds (and trigger); they are announced like any other
         self.const = set()
-        if level == 'instance' and rng.random() < 0.25:
+        if level == 'instance' and 'twins' not in feats and rng.random() < 0.25:
+            # (not together with twin watchers: same-object re-assignments add non-qualifying events to coalesced calls, which
+            #  makes attributing a call to one of two identical watchers ambiguous)
             ns['p3'] = param.Parameter(default=['held', idx], constant=True)
             self.const = {'p3'}
         cls = type(f'W{idx}', (param.Parameterized,), ns)
